@@ -363,7 +363,7 @@ def gen_case(rng, hashseed, bigcut=False):
                        'cut_limit': rng.choice([3, 8, 25]), 'solver_time_limit_sec': rng.choice([0, 0, 0, 5]),
                        'enable_validation': rng.random() < 0.4},
             'policy': rng.choice(['faithful', 'faithful', 'shuffled', 'pruned', 'inputs_omitted']),
-            'dedupe_first': rng.random() < 0.5}
+            'dedupe_first': rng.random() < 0.5, 'shuffle': rng.random() < 0.3}
     if bigcut:
         case['params'].update({'max_subcircuit_size': rng.choice([3, 4, 5]), 'solver_time_limit_sec': 2, 'cut_limit': 8})
         case['policy'] = 'faithful'
@@ -422,7 +422,7 @@ def build_case_circuit(case, rng):
         # constants with operands (ALWAYS_FALSE(x, x)) are outside the supported set: drop such cases via domain check
         return c
     net = netgen.from_description(case['net'])
-    c = netgen.build(net, rng=rng)
+    c = netgen.build(net, rng=rng, shuffle_storage=case.get('shuffle', False))
     if case.get('dedupe_first'):
         from cirbo.minimization.simplification import MergeEquivalentGates
         c = MergeEquivalentGates().transform(c)
